@@ -293,3 +293,38 @@ Proof. intros H H0. rewrite rotate_is_rodrigues by exact H. apply rodrigues_turn
 Example quarter_turns :
   rodrigues (PI / 2) (mk 0 0 1) (mk 1 0 0) = mk 0 1 0 /\ rodrigues (PI / 2) (mk 0 0 (-1)) (mk 1 0 0) = mk 0 (-1) 0.
 Proof. split; unfold rodrigues, add, scal, cross, dot; simpl; rewrite cos_PI2, sin_PI2; f_equal; ring. Qed.
+
+(* ---- group laws: zero turn, composition about the same axis, inverse, full turn ---- *)
+Lemma rodrigues_0 k v : rodrigues 0 k v = v.
+Proof.
+  destruct k as [a b c], v as [x y z]. unfold rodrigues, add, scal, cross, dot; cbn [vec3_x vec3_y vec3_z].
+  rewrite cos_0, sin_0. f_equal; ring.
+Qed.
+Lemma rodrigues_compose s t k v : dot k k = 1 -> rodrigues s k (rodrigues t k v) = rodrigues (s + t) k v.
+Proof.
+  destruct k as [a b c], v as [x y z]. unfold rodrigues, add, scal, cross, dot; cbn [vec3_x vec3_y vec3_z]. intros H.
+  rewrite cos_plus, sin_plus.
+  set (cs := cos s). set (ss := sin s). set (ct := cos t). set (st := sin t). clearbody cs ss ct st.
+  f_equal; nsatz.
+Qed.
+Theorem rotate_zero axis v : (vx axis <> 0 \/ vy axis <> 0 \/ vz axis <> 0) -> rotate_vector_around_an_axis 0 axis v = v.
+Proof. intros H. rewrite rotate_is_rodrigues by exact H. apply rodrigues_0. Qed.
+Theorem rotate_compose s t axis v : (vx axis <> 0 \/ vy axis <> 0 \/ vz axis <> 0) ->
+  rotate_vector_around_an_axis s axis (rotate_vector_around_an_axis t axis v) = rotate_vector_around_an_axis (s + t) axis v.
+Proof. intros H. rewrite !rotate_is_rodrigues by exact H. apply rodrigues_compose. apply unit_norm. exact H. Qed.
+Theorem rotate_inverse t axis v : (vx axis <> 0 \/ vy axis <> 0 \/ vz axis <> 0) ->
+  rotate_vector_around_an_axis (- t) axis (rotate_vector_around_an_axis t axis v) = v.
+Proof. intros H. rewrite rotate_compose by exact H. replace (- t + t) with 0 by ring. apply rotate_zero. exact H. Qed.
+Theorem rotate_full_turn axis v : (vx axis <> 0 \/ vy axis <> 0 \/ vz axis <> 0) ->
+  rotate_vector_around_an_axis (2 * PI) axis v = v.
+Proof.
+  intros H. rewrite rotate_is_rodrigues by exact H.
+  destruct (unit_of axis) as [a b c], v as [x y z]. unfold rodrigues, add, scal, cross, dot; cbn [vec3_x vec3_y vec3_z].
+  rewrite cos_2PI, sin_2PI. f_equal; ring.
+Qed.
+(* reversing the axis reverses the sense of rotation *)
+Lemma rodrigues_neg_axis t k v : rodrigues t (scal (-1) k) v = rodrigues (- t) k v.
+Proof.
+  destruct k as [a b c], v as [x y z]. unfold rodrigues, add, scal, cross, dot; cbn [vec3_x vec3_y vec3_z].
+  rewrite cos_neg, sin_neg. f_equal; ring.
+Qed.
